@@ -3,6 +3,7 @@ SPECIFICATION Spec
 CONSTANTS
   Shapes <- ShapesQ
   StepVals <- Steps12
+  Broadcast = FALSE
   MaxSlices = 2
   MaxWrites = 0
   MaxReshapes = 0
